@@ -1,11 +1,12 @@
 #!/bin/sh
 # usage: tools/try_patch.sh <patch.diff> <prop> [<prop> ...]
-# applies the change to /repo (never committed), runs the checks against /repo, and undoes it straight afterwards
+# applies the change to /repo (never committed), runs the checks against /repo, and undoes it straight afterwards;
+# evidence of these experiments goes to .work/evidence-experiments, never to /verif/evidence
 P=$1; shift
 git -C /repo diff --quiet || { echo "/repo has uncommitted changes"; exit 2; }
 git -C /repo apply "$P" || { echo "patch does not apply"; exit 2; }
 for prop in "$@"; do
-  /verif/check $prop --no-probe ${TRY_FLAGS:-}
+  /verif/check $prop --no-probe --evidence-dir /verif/.work/evidence-experiments ${TRY_FLAGS:-}
 done
 git -C /repo checkout -- .
 git -C /repo status --short | grep -v '^??' | head -3
